@@ -33,8 +33,6 @@ ASSUMPTIONS = [
 
 KNOWN_D16 = "vcs-reference-prefix-equality"
 KNOWN_RESOLVED = "vcs-resolved-reference-equality"
-KNOWN_DEGENERATE = "version-union-local-degenerate-range"
-KNOWN_SUBDIR = "empty-subdirectory-hash"
 SEP = "\x01"
 CALL_LIMIT = 4.0
 
@@ -282,12 +280,6 @@ def classify(kind: str, check: str, objs: list[Obj]) -> str | None:
             return KNOWN_D16
         if is_resolved_case(objs):
             return KNOWN_RESOLVED
-    if kind == "constraint" and check in ("hash", "reparse-hash") and any(is_degenerate(o.obj) for o in objs):
-        return KNOWN_DEGENERATE
-    if kind in ("dep", "pkg", "spec") and check in ("hash", "reparse-hash") and len(objs) == 2 and \
-            ({objs[0].obj.source_subdirectory, objs[1].obj.source_subdirectory} == {"", None}
-             or {objs[0].obj.source_url, objs[1].obj.source_url} == {"", None}):
-        return KNOWN_SUBDIR
     return None
 
 
@@ -404,9 +396,7 @@ def oracle(ctx: core.Ctx, kind: str, pool: list[Obj], stream: str) -> tuple[list
 
 
 def reparse_in_domain(kind: str, o: Any) -> bool:
-    """text round trips that other properties record as known findings are not judged again here"""
-    if kind == "constraint":
-        return not is_degenerate(o)
+    """text round trips that other properties record as known findings are not judged again here (none at present)"""
     return True
 
 
@@ -418,9 +408,6 @@ FIXED_WITNESS: dict[str, dict[str, Any]] = {
                      "specs": ["vcs|foo|https://github.com/a/b.git|git|branch|main|-|-|-",
                                "vcs|foo|https://github.com/a/b.git|git|branch|main|abcdef0|-|-",
                                "vcs|foo|https://github.com/a/b.git|git|rev|abcdef0|abcdef0|-|-"]},
-    KNOWN_DEGENERATE: {"kind": "constraint", "check": "hash", "specs": ["1.0 || 1.0+local", "1.0+local"]},
-    KNOWN_SUBDIR: {"kind": "dep", "check": "hash",
-                   "specs": ["508|foo @ https://example.com/a.zip#subdirectory=", "508|foo @ https://example.com/a.zip"]},
 }
 
 
@@ -899,7 +886,7 @@ def run_round(ctx: core.Ctx, scale: int, tag: str, with_model: bool = True) -> N
 
 
 def corpus(ctx: core.Ctx) -> None:
-    """fixed witnesses of the recorded classes and of the repaired defects (35cdee8, 3f2b755)"""
+    """fixed witnesses of the recorded classes and of the repaired defects (35cdee8, 3f2b755, 583640d, 34fbb11)"""
     for key, w in FIXED_WITNESS.items():
         replay(ctx, w)
     for kind, specs in (("marker", ['"lin" in sys_platform', 'sys_platform in "lin"', "'lin' in sys_platform", 'sys_platform == "lin"']),
